@@ -247,9 +247,21 @@ def run(rep):
             f = os.path.join(d, "in.png")
             open(f, "wb").write(inp)
             os.utime(f, ns=(1_500_000_000_000_000_000, 1_400_000_000_000_000_000))
-            if rng.random() < 0.5:
+            pick = rng.random()
+            if pick < 0.3:
                 rc, so, se = run_cli(cli, argv + ["--stdout", f])
                 got = so
+            elif pick < 0.6:
+                # the input named by its bare file name (relative to the working directory), the result sent to ANOTHER file of the same
+                # name: into --dir, or to an --out path ending in that name. The manual: a copy arrives there even if nothing improved
+                os.makedirs(os.path.join(d, "sub"))
+                extra = ["--dir", "sub"] if pick < 0.45 else ["--out", os.path.join("sub", "in.png")]
+                rc, so, se = run_cli(cli, argv + extra + ["in.png"], cwd=d)
+                o2 = os.path.join(d, "sub", "in.png")
+                got = open(o2, "rb").read() if os.path.exists(o2) else b""
+                if open(f, "rb").read() != inp:
+                    rep.violation("C09:second-pass-input-touched", f"the input was modified although {extra[0]} names another file (argv {' '.join(argv + extra)})",
+                                  {"cases": [mc.meta[cid]["cmd"]], "argv": argv + extra, "png": inp.hex()})
             else:
                 rc, so, se = run_cli(cli, argv + [f])
                 got = open(f, "rb").read()
